@@ -111,7 +111,8 @@ def task_container_charge(pr, repo):
     def thunk(ex, ctx):
         gs = []
         for i in range(3):
-            g = mkgroup(repo, 'g%d' % i, titratable=B('t%d' % i))
+            # residue_type/exclude flag: so that a selection through use_in_calculations() can be executed too
+            g = mkgroup(repo, 'g%d' % i, titratable=B('t%d' % i), residue_type='CYS', exclude_cys_from_results=False)
             g.attrs['__idx__'] = i
             gs.append(g)
         conf = record('conf', CCls, groups=gs)
